@@ -179,6 +179,10 @@ impl Property for C17 {
             10 => (gen::corpus_lib(&mut rng).to_string(), true),
             _ => (gen::lib_program(&mut rng), true),
         };
+        if rng.chance(1, 4) {
+            // near-valid: what one alternative tolerates and memoises, another may replay
+            text = gen::punct_edit(&mut rng, &text);
+        }
         if !lib && rng.chance(1, 3) {
             // state-carrying trivia at arbitrary token boundaries: memoised side effects are skipped on a hit
             text = gen::inject_directives(&mut rng, &text);
@@ -354,15 +358,19 @@ impl Property for C17 {
                             }
                         }
                         (Some(_), Some(_)) => {
-                            // second discriminator: side effects of keyword directives replayed after an eviction.
-                            // Attributed only if (1) the diverging run re-executed a region push, or a pop that removed
-                            // an entry, for a directive that had already executed one, more often than the reference run,
-                            // and (2) the two capacities agree once the keyword directives are blanked out.
+                            // second discriminator: the keyword-version stack is parse-history state outside the memo key.
+                            // (1) replayed side effects (hook probe) are reported as supporting evidence;
+                            // (2) the two capacities must agree once the keyword directives are blanked out.
                             let replay_div = b.kw_replayed_pushes + b.kw_replayed_effective_pops;
                             let replay_ref = a.kw_replayed_pushes + a.kw_replayed_effective_pops;
                             let neutral = neutralise_keyword_directives(&small);
                             let mut attributed = false;
-                            if replay_div > replay_ref && neutral != small {
+                            // (1) was demanded at first; a second unchanged-tree input showed the same defect without any
+                            // replayed side effect: results memoised while one keyword set was in force are replayed while
+                            // another is (the stack is not rolled back when an alternative fails). What remains mechanical:
+                            // a region push was executed in the diverging run, and (2).
+                            let region_in_play = b.sites[4] > 0 || a.sites[4] > 0;
+                            if region_in_play && neutral != small {
                                 let n1 = run_one(sc, &with_text(reference, &neutral), 400_000);
                                 let n2 = run_one(sc, &with_text(c, &neutral), 400_000);
                                 rep.execs += 2;
@@ -373,7 +381,7 @@ impl Property for C17 {
                                 }
                             }
                             if attributed {
-                                v.detail = format!("{} [persists with a flag-aware key; {} replayed keyword-region side effects in the diverging run vs {} in the reference, and the divergence vanishes when the keyword directives are blanked out: begin_keywords()/end_keywords() run inside memoised parsers (version_specifier, endkeywords_directive via white_space), sv-parser-parser/src/general/compiler_directives.rs]", v.detail, replay_div, replay_ref);
+                                v.detail = format!("{} [persists with a flag-aware key; a `begin_keywords region is in play ({} replayed region side effects in the diverging run vs {} in the reference) and the divergence vanishes when the keyword directives are blanked out: the keyword-version stack is mutated inside memoised parsers and consulted by memoised parsers without being part of the key (version_specifier / endkeywords_directive via white_space; is_keyword), sv-parser-parser/src/general/compiler_directives.rs, utils.rs]", v.detail, replay_div, replay_ref);
                                 rep.matched.push((KNOWN_ID_KW.to_string(), v));
                             } else {
                                 v.detail = format!("{} [persists with a flag-aware memo key: not the known recursion-flag finding; replayed keyword-region side effects: {} vs {}]", v.detail, replay_div, replay_ref);
